@@ -4,6 +4,7 @@ import (
 	"bytes"
 	"fmt"
 	"math"
+	"sync"
 )
 
 // https://github.com/golang/net/blob/5a444b4f2fe893ea00f0376da46aa5376c3f3e28/http2/http2.go#L112-L119
@@ -27,6 +28,11 @@ type HeaderField struct {
 }
 
 type HTTP2FingerprintingFrames struct {
+	// Mu guards the fields below. They are written by the connection's
+	// frame-processing goroutine while request handlers of the same
+	// connection read them concurrently.
+	Mu sync.RWMutex `json:"-"`
+
 	// Data from SETTINGS frame
 	Settings []Setting
 
@@ -46,6 +52,9 @@ func (f *HTTP2FingerprintingFrames) String() string {
 
 // TODO: add tests
 func (f *HTTP2FingerprintingFrames) Marshal(maxPriorityFrames uint) string {
+	f.Mu.RLock()
+	defer f.Mu.RUnlock()
+
 	var buf bytes.Buffer
 
 	// SETTINGS frame
